@@ -5,6 +5,7 @@ import EupsModel.Lemmas.TableBlocks
 import EupsModel.Lemmas.TableText
 import EupsModel.Lemmas.TableLegacy
 import EupsModel.Lemmas.TableArgs
+import EupsModel.Lemmas.TableWritten
 /-! C11 — table files mean what they say.  Property theorems only: the specification side is in
 `Spec/C11.lean`, the models in `Model/{Cond,CondPinned,TableParse}.lean`, the lemmas in `Lemmas/Cond*.lean`. -/
 namespace EupsModel.C11
@@ -320,7 +321,34 @@ theorem C11_command_kinds (pdir : Option Str) (args : List Str) :
     rcases h with h | h <;> simp [normalise, h]
   · intro a b rest h; subst h; rfl
 
+/-- **C11_written_command.**  A command line as written — indentation, the command word in any letter case, blanks
+before `(`, a written argument list (`C11_args`), `)`, an optional `;`, blanks, a trailing comment — whose
+arguments hold no `#` and none of the seven old variable names `_rewrite` replaces, is one of the lines
+`C11_blocks_text` quantifies over, standing for the action that its command and the arguments written denote
+(`normalise`: aliases, append/prepend, required/optional, `envSet` join, `-f` removal), or for nothing when the
+reader skips that command by design.  Together with `C11_blocks_text`: a table text made of such command lines
+and of chains in any layout yields, for every flavor and list of setup types, exactly the actions written. -/
+theorem C11_written_command (pdir : Option Str) (c : WCmd) (hok : c.ok = true) (hd : (c.denote pdir).isSome = true) :
+    (c.line pdir).ok pdir = true := by
+  cases h : c.denote pdir with
+  | none => rw [h] at hd; cases hd
+  | some res =>
+    have := wcmd_body hok h
+    simpa [WCmd.line, h] using this
+
 /-! ### non-vacuity -/
+
+/-- `\tENVAPPEND (PATH, "${PRODUCT_DIR}/my bin", ;) ;  # c` -/
+def sampleCmd : WCmd :=
+  { wrap := ⟨[9], Str.ofString "# c"⟩, name := Str.ofString "ENVAPPEND", cmd := .envAppend, gap := [32],
+    args := .some [] ⟨Str.ofString "PATH", false⟩
+      [(Str.ofString ", ", ⟨Str.ofString "${PRODUCT_DIR}/my bin", true⟩), (Str.ofString ", ", ⟨[59], false⟩)] [],
+    tl := Str.ofString " ;  " }
+
+example : sampleCmd.raw = Str.ofString "\tENVAPPEND (PATH, \"${PRODUCT_DIR}/my bin\", ;) ;  # c" := by decide +kernel
+example : sampleCmd.ok = true := by decide +kernel
+example : sampleCmd.denote none = some (some ⟨Str.ofString "envPrepend",
+    [Str.ofString "PATH", Str.ofString "${PRODUCT_DIR}/my bin", [59]], .append true⟩) := by decide +kernel
 
 /-- ` PATH , "a b, c" ,"say \"hi\"" "" x ` -/
 example : argsText [32] ⟨Str.ofString "PATH", false⟩
